@@ -486,7 +486,9 @@ package parse
 //@   ensures result0 == node_grouping(self, s) && result1 == node_hasgrouping(self, s)
 //@ func (HasArgument).ArgIdRef
 //@ func (Node).Def
+//@   ensures result == node_def(self)
 //@ func (Node).HasDef
+//@   ensures result == node_hasdef(self)
 //@ func (Node).LookupType
 //@   params s
 
